@@ -203,6 +203,7 @@ impl Loader {
                 Some(s) => s,
             };
 
+            let is_include = matches!(stmt, Statement::Include(_));
             match stmt {
                 Statement::Include(in_path) | Statement::Subninja(in_path) => {
                     let id = self.evaluate_path(in_path, &[&parser.vars]);
@@ -214,13 +215,19 @@ impl Loader {
                         );
                     }
                     let (path, bytes) = self.read_file_by_id(id)?;
-                    let bytes = std::rc::Rc::new(bytes);
-                    let mut sub_parser = parse::Parser::new(&bytes);
+                    // An included file binds variables in the scope of the file
+                    // that includes it, and variable names borrow from the text
+                    // of the file that binds them, so that text is kept for good.
+                    let bytes: &'static [u8] = Box::leak(bytes.into_boxed_slice());
+                    let mut sub_parser = parse::Parser::new(bytes);
 
                     sub_parser.inherit(&parser);
                     self.loading.push(id);
                     self.parse_with_parser(&mut sub_parser, path, envs)?;
                     self.loading.pop();
+                    if is_include {
+                        parser.inherit(&sub_parser);
+                    }
                 }
 
                 Statement::Default(defaults) => {
